@@ -42,6 +42,7 @@ def cases(draw, max_steps=16):
     for r in scn["release"]["rows"]:
         r["step"] = min(r["step"], scn["time"]["nsteps"] - 1)
     scn["release"]["rows"].sort(key=lambda r: (r["step"], r["tag"]))
+    scn["grid"]["metric"] = draw(st.sampled_from([None, "varying"]))  # cell sizes that differ between cells
     return scn
 
 
